@@ -141,7 +141,9 @@ def run(ctx):
                     Lp = Lp_in
                 else:
                     Arec, Lp = rec.last["chol"]
-                    if Arec.shape != (m, m) or np.linalg.norm(Arec - (Kuu + j * np.eye(m))) > 8 * U * np.linalg.norm(Kuu):
+                    # the recorder keeps the symmetrised argument (jnp.linalg.cholesky factorises (A + A^T)/2), and a Gram
+                    # matrix computed through |x|^2 + |y|^2 - 2xy is symmetric only up to cancellation error: compare like with like
+                    if Arec.shape != (m, m) or np.linalg.norm(Arec - (0.5 * (Kuu + Kuu.T) + j * np.eye(m))) > 8 * U * np.linalg.norm(Kuu):
                         ctx.violation(key + "|Lp", "the inducing-point factor is not chol(K_uu + jitter I)", rp({}))
                         continue
                 res = np.abs(L @ Lp.T - Kxu)
